@@ -204,7 +204,12 @@ func streamConc(c *Ctx) {
 				if k%5 == 4 {
 					// a corrupt compressed request from some other peer, on the same handler
 					enc := []string{"gzip", "rle"}[g%2]
-					req, _ := http.NewRequest(http.MethodPost, srv.URL+"/s/unary", bytes.NewReader(frame(1, []byte("this is not compressed data"))))
+					bad := frame(1, []byte("this is not compressed data"))
+					if k%10 == 9 {
+						// … or one whose body stops in the middle of a message
+						bad = append(envPrefix(0, 64), []byte("only a few bytes")...)
+					}
+					req, _ := http.NewRequest(http.MethodPost, srv.URL+"/s/unary", bytes.NewReader(bad))
 					req.Header.Set("Content-Type", "application/grpc-web+raw")
 					req.Header.Set("Grpc-Encoding", enc)
 					if res, err := srv.Client().Do(req); err == nil {
